@@ -1,3 +1,157 @@
 package main
 
-func selftestImpl() int { return 0 }
+import (
+	"encoding/json"
+	"fmt"
+	"os"
+	"path/filepath"
+	"sort"
+	"sync"
+	"time"
+
+	"verif/sim"
+)
+
+var engineSProps = []string{"C01", "C02", "C03", "C04", "C06", "C07", "C08", "C09", "C10", "C11", "C12", "C13", "C15", "C16", "C17", "C18", "C19", "C20"}
+
+var workerProcs = "" // override GOMAXPROCS of engine S workers (self-test audit only)
+
+// selftestImpl: determinism self-test. Every seed is executed 3 times in
+// different worker processes at GOMAXPROCS=1 (canonical trace hashes must all
+// agree) while further processes run the same seeds at GOMAXPROCS=4 and 16 as
+// a confluence audit (reported, not a pass/fail criterion).
+func selftestImpl() int {
+	start := time.Now()
+	bin := buildWorker(false)
+	work := mkWork("selftest")
+	defer os.RemoveAll(work)
+	perProp := uint64(160)
+	if v := os.Getenv("VERIF_SELFTEST_SEEDS"); v != "" {
+		fmt.Sscan(v, &perProp)
+	}
+	seed := uint64(424242)
+	type key struct {
+		prop string
+		i    uint64
+	}
+	type res struct {
+		h1   []string
+		h4   string
+		h16  string
+	}
+	var mu sync.Mutex
+	all := map[key]*res{}
+	type job struct {
+		prop  string
+		only  []uint64
+		procs string
+	}
+	var jobs []job
+	for _, p := range engineSProps {
+		// three disjoint partitions of the same index set, so that each index is
+		// executed by three different processes with different neighbours
+		var idx []uint64
+		for i := uint64(0); i < perProp; i++ {
+			idx = append(idx, i)
+		}
+		for rep := 0; rep < 3; rep++ {
+			parts := 2 + rep
+			for q := 0; q < parts; q++ {
+				var only []uint64
+				for k, i := range idx {
+					if k%parts == q {
+						only = append(only, i)
+					}
+				}
+				if rep == 1 {
+					// reversed order in the second repetition
+					for a, b := 0, len(only)-1; a < b; a, b = a+1, b-1 {
+						only[a], only[b] = only[b], only[a]
+					}
+				}
+				jobs = append(jobs, job{p, only, "1"})
+			}
+		}
+		jobs = append(jobs, job{p, idx, "4"}, job{p, idx, "16"})
+	}
+	ch := make(chan job, len(jobs))
+	for _, j := range jobs {
+		ch <- j
+	}
+	close(ch)
+	var wg sync.WaitGroup
+	nproc := 0
+	for w := 0; w < 16; w++ {
+		wg.Add(1)
+		go func() {
+			defer wg.Done()
+			for j := range ch {
+				r := runWorkerProcs(bin, work, sim.WorkerSpec{Mode: "search", Prop: j.prop, Seed: seed, Only: j.only}, 20*time.Minute, j.procs)
+				mu.Lock()
+				nproc++
+				for _, l := range r.lines {
+					if l.T != "hash" {
+						continue
+					}
+					k := key{j.prop, l.I}
+					if all[k] == nil {
+						all[k] = &res{}
+					}
+					switch j.procs {
+					case "1":
+						all[k].h1 = append(all[k].h1, l.Hash)
+					case "4":
+						all[k].h4 = l.Hash
+					case "16":
+						all[k].h16 = l.Hash
+					}
+				}
+				mu.Unlock()
+			}
+		}()
+	}
+	wg.Wait()
+	mism, div4, div16, n := 0, 0, 0, 0
+	var bad []string
+	for k, r := range all {
+		n++
+		ok := len(r.h1) == 3
+		for _, h := range r.h1 {
+			if h != r.h1[0] {
+				ok = false
+			}
+		}
+		if !ok {
+			mism++
+			bad = append(bad, fmt.Sprintf("%s/%d %v", k.prop, k.i, r.h1))
+			continue
+		}
+		if r.h4 != "" && r.h4 != r.h1[0] {
+			div4++
+		}
+		if r.h16 != "" && r.h16 != r.h1[0] {
+			div16++
+		}
+	}
+	sort.Strings(bad)
+	out := map[string]interface{}{
+		"seeds":                       n,
+		"executions_at_gomaxprocs_1":  n * 3,
+		"worker_processes":            nproc,
+		"mismatches_at_gomaxprocs_1":  mism,
+		"mismatch_examples":           bad,
+		"divergent_at_gomaxprocs_4":   div4,
+		"divergent_at_gomaxprocs_16":  div16,
+		"wall_s":                      time.Since(start).Seconds(),
+		"tree":                        gitRev(),
+		"note":                        "pass criterion: every seed gives the same canonical trace hash in three different processes at GOMAXPROCS=1 (different neighbours, one repetition in reversed order); 4/16-P runs are a confluence audit only",
+	}
+	b, _ := json.MarshalIndent(out, "", " ")
+	os.WriteFile(filepath.Join(root, "evidence", "selftest.json"), b, 0o644)
+	fmt.Println(string(b))
+	if mism > 0 {
+		fmt.Fprintln(os.Stderr, "verifctl: determinism self-test FAILED")
+		return 2
+	}
+	return 0
+}
